@@ -125,7 +125,9 @@ func (g *verifGetter) GetSamples(ctx context.Context, h *header.ExtendedHeader, 
 	case 2:
 		err = context.Canceled
 	}
-	if err != nil && nd.Choice(2, "noResult") == 1 {
+	// "nothing at all": no result, with an error - or without one (no getter in
+	// the repository does the latter, the interface does not forbid it)
+	if nd.Choice(2, "noResult") == 1 {
 		return nil, err
 	}
 	out := make([]shwap.Sample, len(idx))
